@@ -20,6 +20,8 @@ def run(ctx):
     common.audit(ctx, 'Smtb/Proofs/BN254Prime.lean', ['Smtb.Pratt.bn254r_prime'])
     common.audit(ctx, 'Smtb/Properties/C08.lean', PACK)       # the hashed bit string IS the big-endian packing; packing injective
     common.audit(ctx, 'Smtb/Properties/C06.lean', UNIQUE)     # no alternative encoding v + k*r
+    common.lake_build(['Smtb.Properties.TraceSound'])
+    common.audit(ctx, 'Smtb/Properties/TraceSound.lean', ['Smtb.Properties.TraceSound.insertionCircuit_trace_iff_bn254', 'Smtb.Properties.TraceSound.deletionCircuit_trace_iff_bn254'])
     ctx.assumptions += [
         "gate table (validated by T-corr-gates) and parametricity; Keccak-256 reference (C04) and Poseidon reference (C05) as the trusted statements of the two hash functions",
         "'any different batch gives a different public input' beyond injectivity of the packing is collision resistance of Keccak-256: not provable, not assumed; the theorems state that the public input is Keccak-256 of exactly the canonical packing, reduced mod r",
